@@ -4,7 +4,7 @@ TRACE = ("BsProcess_Trace", "BsProcess_Trace.cfg")
 
 
 def plan(pid, tier, seed):
-    return {"harness": "bsprocess", "mc": [], "gen": [], "rand": 120 if tier == "quick" else 3000, "trace": TRACE}
+    return {"harness": "bsprocess", "mc": [], "gen": [], "rand": 240 if tier == "quick" else 3000, "trace": TRACE}
 
 
 def nontrivial(rec):
